@@ -788,6 +788,13 @@ pub fn signed_bitmessage_to_buf(
         return Err(ProtoError::from("TSIG signature record not found"));
     };
 
+    // RFC 8945 4.2: a TSIG RR has CLASS ANY and TTL 0.  Both are digest components (4.3.3), and
+    // the digest below is built with these two values, so an RR carrying anything else must not
+    // verify.
+    if tsig_rr.dns_class != DNSClass::ANY || tsig_rr.ttl != 0 {
+        return Err(ProtoError::from("TSIG record must have CLASS ANY and TTL 0"));
+    }
+
     let tsig = &tsig_rr.data;
     metadata.id = tsig.oid;
 
